@@ -8,3 +8,15 @@ open CalmVerif.Props.C03
 #check @lr_deterministic
 #print axioms grammar_is_reviewed
 #check @grammar_is_reviewed
+#print axioms binary_levels_chain
+#check @binary_levels_chain
+#print axioms assignment_conditional_right_assoc
+#check @assignment_conditional_right_assoc
+#print axioms noin_family_excludes_in
+#check @noin_family_excludes_in
+#print axioms else_binds_nearest
+#check @else_binds_nearest
+#print axioms exprstmt_never_starts_with_brace
+#check @exprstmt_never_starts_with_brace
+#print axioms exprstmt_can_start_with_function_KF03a
+#check @exprstmt_can_start_with_function_KF03a
